@@ -296,6 +296,11 @@ func (r *DenseFloat32Matrix) MdotM(a, b ConstMatrix) Matrix {
   t1 := float32(0)
   t2 := float32(0)
   if r.storageLocation() == b.storageLocation() {
+    if r.storageLocation() == a.storageLocation() {
+      // r is both the left and the right factor, the left
+      // factor must not change while r is computed
+      a = a.CloneConstMatrix()
+    }
     t3 := make([]float32, n)
     for j := 0; j < m; j++ {
       for i := 0; i < n; i++ {
@@ -338,6 +343,11 @@ func (r *DenseFloat32Matrix) MDOTM(a, b *DenseFloat32Matrix) Matrix {
   t1 := float32(0)
   t2 := float32(0)
   if r.storageLocation() == b.storageLocation() {
+    if r.storageLocation() == a.storageLocation() {
+      // r is both the left and the right factor, the left
+      // factor must not change while r is computed
+      a = a.Clone()
+    }
     t3 := make([]float32, n)
     for j := 0; j < m; j++ {
       for i := 0; i < n; i++ {
